@@ -216,9 +216,24 @@ fn string_len_le3() {
     std::mem::forget(v);
 }
 
+/// Error exits of the allocator / of `str` slicing: all three diverge in std (panic or abort) after
+/// formatting a message; the stubs panic without formatting.  Sound (reaching one still fails the
+/// harness), and it removes `fmt` from the program CBMC has to execute symbolically.
+fn alloc_error_stub(_e: std::collections::TryReserveError) -> ! {
+    panic!("raw_vec::handle_error reached")
+}
+fn handle_alloc_error_stub(_l: std::alloc::Layout) -> ! {
+    panic!("handle_alloc_error reached")
+}
+fn slice_error_fail_stub(_s: &str, _begin: usize, _end: usize) -> ! {
+    panic!("str slice not on a char boundary / out of range")
+}
+
 #[kani::proof]
 #[kani::unwind(5)]
 #[kani::stub(core::str::count::do_count_chars, never_do_count_chars)]
+#[kani::stub(alloc::raw_vec::handle_error, alloc_error_stub)]
+#[kani::stub(std::alloc::handle_alloc_error, handle_alloc_error_stub)]
 fn string_reverse_le3() {
     let (b, n) = any_str_le3();
     let v = mk_string(&b, n, false);
@@ -237,6 +252,9 @@ fn string_reverse_le3() {
 #[kani::proof]
 #[kani::unwind(5)]
 #[kani::stub(core::str::count::do_count_chars, never_do_count_chars)]
+#[kani::stub(alloc::raw_vec::handle_error, alloc_error_stub)]
+#[kani::stub(std::alloc::handle_alloc_error, handle_alloc_error_stub)]
+#[kani::stub(core::str::slice_error_fail, slice_error_fail_stub)]
 fn string_iter_le3() {
     use crate::vm::for_loop::create_for_loop_iterator;
     let (b, n) = any_str_le3();
